@@ -426,6 +426,8 @@ func (e *Engine) deliver(st *State, kind retKind, res Value) {
 		c.pc++
 	case retDiscard:
 		st.top().pc++
+	case retRerun:
+		// a lazily scheduled goroutine finished: the blocked instruction is executed again
 	case retDefer:
 		c := st.top()
 		if c.status == stPanicking || c.status == stComplete {
@@ -1170,6 +1172,11 @@ func (e *Engine) exec(st *State, f *Frame, ins ssa.Instruction) {
 			f.pc++
 		case "inline":
 			e.callValue(st, fv, args, retDiscard, ins)
+		case "lazy":
+			// second fixed schedule: the goroutine does not run until the spawning thread
+			// blocks (select / receive with nothing ready) or the harness ends
+			st.goDeferred = append(st.goDeferred, deferRec{fn: fv, args: args})
+			f.pc++
 		default:
 			e.unsupported(st, "go statement: "+name)
 		}
@@ -1369,6 +1376,8 @@ func (e *Engine) execUnOp(st *State, f *Frame, ins *ssa.UnOp) {
 		} else if o.closed {
 			v = e.zeroValue(et)
 			ok = false
+		} else if e.runLazyGo(st, ins) {
+			return
 		} else {
 			e.unsupported(st, "blocking channel receive")
 		}
